@@ -55,6 +55,8 @@ type Contract struct {
 	Requires []*Clause
 	Ensures  []*Clause
 	Relies   []*Clause // data-structure invariants assumed at entry and NOT asserted at call sites (rely/guarantee; listed in evidence)
+	After    map[string][]*Clause // call site (callee.ordinal) -> facts assumed right after that call (separation facts the logic cannot express; every use is listed in evidence)
+	Proves   []*Clause // proved for the body but not exported to callers (internal facts that would clash with an assumed abstraction such as allocator freshness)
 	Postulates []*Clause // assumed at call sites, not proved for the body (ghost accounting attached to a wrapper)
 	Modifies []string
 	HasMod   bool
@@ -65,6 +67,7 @@ type Contract struct {
 	Trusted  bool
 	Overflow bool
 	NoSafety bool
+	LockExempt bool // calls through this contract are allowed while gkvlite locks are held (documented exception)
 	From     []string
 	Line     int
 	Text     string // raw text of the block (for hashing)
@@ -94,8 +97,8 @@ type ContractFile struct {
 }
 
 var clauseKeywords = map[string]bool{"func": true, "interface": true, "extern": true, "functype": true, "global": true, "ghost": true,
-	"props": true, "requires": true, "relies": true, "ensures": true, "postulate": true, "modifies": true, "loop": true, "decreases": true, "inline": true,
-	"trusted": true, "overflow": true, "nosafety": true, "from:": true, "end": true}
+	"props": true, "requires": true, "relies": true, "ensures": true, "proves": true, "postulate": true, "after": true, "modifies": true, "loop": true, "decreases": true, "inline": true,
+	"trusted": true, "overflow": true, "nosafety": true, "lockexempt": true, "from:": true, "end": true}
 
 var tagRe = regexp.MustCompile(`^\[([A-Za-z0-9_, ]+)\]\s*`)
 var labelRe = regexp.MustCompile(`^([A-Za-z][A-Za-z0-9_.\-]*):\s+`)
@@ -207,7 +210,7 @@ func parseContractFile(path string) (*ContractFile, error) {
 			switch kw {
 			case "props":
 				cur.Props = append(cur.Props, fields[1:]...)
-			case "requires", "ensures", "postulate", "relies":
+			case "requires", "ensures", "postulate", "relies", "proves":
 				tags, label, src := splitTagsLabel(rest)
 				e, err := parseExpr(src)
 				if err != nil {
@@ -218,6 +221,8 @@ func parseContractFile(path string) (*ContractFile, error) {
 					cur.Requires = append(cur.Requires, cl)
 				} else if kw == "relies" {
 					cur.Relies = append(cur.Relies, cl)
+				} else if kw == "proves" {
+					cur.Proves = append(cur.Proves, cl)
 				} else if kw == "postulate" {
 					cur.Postulates = append(cur.Postulates, cl)
 				} else {
@@ -267,6 +272,22 @@ func parseContractFile(path string) (*ContractFile, error) {
 				default:
 					return nil, fail("bad loop clause kind %q", sub)
 				}
+			case "after":
+				// after <callee>.<k> assumes <expr>
+				idx := strings.Index(rest, " assumes ")
+				if idx < 0 {
+					return nil, fail("bad after clause")
+				}
+				site := strings.TrimSpace(rest[:idx])
+				src := strings.TrimSpace(rest[idx+len(" assumes "):])
+				e, err := parseExpr(src)
+				if err != nil {
+					return nil, fail("%v", err)
+				}
+				if cur.After == nil {
+					cur.After = map[string][]*Clause{}
+				}
+				cur.After[site] = append(cur.After[site], &Clause{Kind: "after", Src: src, E: e, Line: rc.line})
 			case "inline":
 				cur.Inline = true
 			case "trusted":
@@ -275,6 +296,8 @@ func parseContractFile(path string) (*ContractFile, error) {
 				cur.Overflow = true
 			case "nosafety":
 				cur.NoSafety = true
+			case "lockexempt":
+				cur.LockExempt = true
 			case "from:":
 				cur.From = append(cur.From, rest)
 			}
